@@ -220,7 +220,9 @@ def build(pkg, scratch, tags="verif", race=False):
     if REPO != "/repo":
         cmd += ["-modfile", _altmod(scratch)]
     if race:
-        cmd += ["-race"]
+        # boltdb v1.3.1 trips the race build's pointer checks (checkptr) in its own page
+        # arithmetic; that is not a data race and not the code under test
+        cmd += ["-race", "-gcflags=github.com/boltdb/bolt=-d=checkptr=0"]
     cmd += ["./" + pkg]
     t0 = time.time()
     p = subprocess.run(cmd, cwd=HARNESS, env=env, stdout=subprocess.PIPE,
